@@ -175,6 +175,33 @@ Proof.
 Qed.
 Print Assumptions nothing_is_lost_along_histories_of_the_source.
 
+(* ... C02: after any such history of the source both books are sorted by priority, without duplicate ids *)
+Theorem books_are_priority_sorted_along_histories_of_the_source : forall id tk mp0 f0 ops, Forall valid_op ops ->
+  let m := fst (exec_with step_src (init_market id tk mp0) (OTick f0 :: ops)) in
+  MatchQ.sortedq (m_buys m) /\ MatchQ.sortedq (m_sells m) /\ NoDup (map (@oid Q) (m_buys m)) /\ NoDup (map (@oid Q) (m_sells m)).
+Proof.
+  intros id tk mp0 f0 ops Hv. rewrite (histories_of_the_source_from_setup id tk mp0 f0 ops Hv). cbn [fst].
+  assert (H : book_ok (final_state (init_market id tk mp0) (OTick f0 :: ops))).
+  { apply reachable_ok; [apply book_ok_init|constructor; [exact I|exact Hv]]. }
+  destruct H as [[? ? ?] [? ? ?]]. auto.
+Qed.
+
+(* ... C06: whatever the source's methods do after a state reached by such a history, every value recorded for an earlier step stays *)
+Theorem recorded_history_is_immutable_along_histories_of_the_source : forall id tk mp0 f0 ops more i, Forall valid_op ops -> Forall valid_op more ->
+  let m := fst (exec_with step_src (init_market id tk mp0) (OTick f0 :: ops)) in
+  0 <= i < m_time m ->
+  series_at (fst (exec_with step_src (init_market id tk mp0) (OTick f0 :: ops ++ more))) i = series_at m i.
+Proof.
+  intros id tk mp0 f0 ops more i Hv Hm. rewrite (histories_of_the_source_from_setup id tk mp0 f0 ops Hv).
+  rewrite (histories_of_the_source_from_setup id tk mp0 f0 (ops ++ more)) by (apply Forall_app; split; assumption). cbn [fst].
+  intros Hi. change (OTick f0 :: ops ++ more) with ((OTick f0 :: ops) ++ more).
+  assert (F : forall a b m0, final_state m0 (a ++ b) = final_state (final_state m0 a) b).
+  { induction a as [|o r IH]; intros b m0; [reflexivity|]. cbn [app final_state]. destruct (step m0 o) as [[m' x]|]; apply IH. }
+  rewrite F. apply history_immutable. exact Hi.
+Qed.
+Print Assumptions books_are_priority_sorted_along_histories_of_the_source.
+Print Assumptions recorded_history_is_immutable_along_histories_of_the_source.
+
 (* non-vacuity: the premises hold of a market after its first clock step, and a history with an order on each side, a round, a cancel of
    the rest and a clock step runs through the generated functions to a trade and a cancellation *)
 Example source_history_example :
